@@ -215,6 +215,9 @@ _dispatch_time_nanoseconds_since_epoch(dispatch_time_t when)
 		return (uint64_t)-(int64_t)when;
 	}
 
-	// Up time or monotonic time.
-	return _dispatch_get_nanoseconds() + _dispatch_timeout(when);
+	// Up time or monotonic time. Read the time's own clock first: time that
+	// passes between the two clock readings must make the deadline later, not
+	// earlier (a timed wait may not time out before its deadline)
+	uint64_t timeout = _dispatch_timeout(when);
+	return _dispatch_get_nanoseconds() + timeout;
 }
